@@ -9,7 +9,7 @@ STUBS = ["open / os.path.exists in rtflite.assemble -> in-memory file system",
 
 def build(tier, seed):
     quick = tier == "quick"
-    T = 120 if quick else 900
+    T = 240 if quick else 900
     obs = []
     # O1: two and three files
     obs.append(Ob(
